@@ -137,19 +137,27 @@ def run(chk, prog):
         chk.anchor_missing("never-both", "Context::was_connected")
     else:
         g = wc[0]
-        txt = ""
+        # it must look at the *whole* state log (an on_error callback runs after ErrorOccured was pushed, so the current state
+        # alone can never be Connected there) and compare with the Connected state
+        scans = [c for h in [g] + prog.children(g) for c in h.calls
+                 if re.search(r"iter::traits::iterator::Iterator::(any|find|position|filter)$|slice::<impl \[T\]>::(contains|iter)$", c.path or "")]
+        from_log = "f:state" in str([st for h in [g] + prog.children(g) for b in h.reachable for st in h.stmts(b)])
+        last_only = [c for h in [g] + prog.children(g) for c in h.calls if re.search(r"context::Context::state$|slice::<impl \[T\]>::last$", c.name or c.path or "")]
+        cmp_connected = False
         for h in [g] + prog.children(g):
-            for b in h.reachable:
-                for st in h.stmts(b):
-                    txt += str(st.get("rv", ""))
-                t = h.term(b)
-                if t:
-                    txt += str(t.get("args", "")) + str(t.get("d", ""))
-        # Connected is variant index 3 of ContextState; accept the named constant or a discriminant comparison with 3
-        ok = "ContextState::Connected" in txt or "Connected" in txt
-        chk.instance("never-both", "%s:%s" % (g.file, g.line), "was_connected tests for ContextState::Connected", ok)
+            for c in h.calls:
+                if re.search(r"ContextState as core::cmp::PartialEq>::eq$", c.name or "") or re.search(r"cmp::PartialEq::eq$", c.path or "") and "ContextState" in (c.full or ""):
+                    for a in c.args:
+                        tr = h.trace(op_base(a)) if op_base(a) is not None else []
+                        if "Connected" in str(tr) or "Connected" in str(a):
+                            cmp_connected = True
+        ok = bool(scans) and from_log and not last_only and cmp_connected
+        chk.instance("never-both", "%s:%s" % (g.file, g.line), "was_connected scans the whole state log for ContextState::Connected", ok,
+                     "scan=%s log=%s last-only=%s compares Connected=%s" % (bool(scans), from_log, bool(last_only), cmp_connected))
         if not ok:
-            chk.finding("never-both", g.key, "state", "", "%s:%s" % (g.file, g.line), "Context::was_connected no longer tests the Connected state")
+            chk.finding("never-both", g.key, "state", "", "%s:%s" % (g.file, g.line),
+                        "Context::was_connected no longer searches the whole state log for Connected (scan=%s, current-state-only=%s): inside an "
+                        "on_error callback the current state is already ErrorOccured, so the guard never holds" % (bool(scans), bool(last_only)))
 
     # ---------------------------------------------------------------- (4) complete reply
     shared.rule_f1(chk, prog, files=["src/common/http.rs", "src/common/socks.rs", "src/common/h11c.rs", "src/listeners/socks.rs"])
